@@ -22,18 +22,31 @@ ATOMS = {
     13: "'single'", 14: "'it s'", 15: "'A-1'",
     16: '"double"', 17: '"two words"', 18: '"%d-%m"',
     19: "`2020-01-01`", 20: "`backquoted`",
-    21: "{a,b c}", 22: "{1,2,3}",
+    21: "`12:30`", 22: "100",
     23: "/^[a-z]+$/", 24: "/road/i",
     25: '"a (b) AND c"', 26: "'[z]'",
+    # strings whose content could be mistaken for structure, by quote character (TrickySq / Dq / Bq)
+    30: "'o\"clock'", 31: "'('", 32: "')'", 33: "'a (b'", 34: "'x`y'",
+    35: '"it\'s"', 36: '"("', 37: '")"', 38: '"5` ("', 39: '"[x] + (1"',
+    40: "`o'clock`", 41: "`(`", 42: '`5"`', 43: "`a)b`", 44: "`it's (`",
 }
-FUNCS = {1: "length", 2: "tostring", 3: "upper", 4: "round"}
+PLAIN_ATOMS = set(range(1, 27))
+TRICKY = {"TrickySq": {30, 31, 32, 33, 34}, "TrickyDq": {35, 36, 37, 38, 39}, "TrickyBq": {40, 41, 42, 43, 44}}
+FUNCS = {1: "length", 2: "tostring", 3: "upper", 4: "round", 5: "lookup", 6: "inlist"}
 # arguments of function f: ids 100f+j (FuncArity(f) = 1 for odd f, 2 for even f in spec/Expr.tla)
-FUNC_ARGS = {101: "[n]", 201: "[x1]", 202: '"%.2f"', 301: "[label]", 401: "[y]", 402: "3"}
+FUNC_ARGS = {101: "[n]", 201: "[x1]", 202: '"%.2f"', 301: "[label]", 401: "[y]", 402: "3", 601: "[code]"}
+# list expressions: list l has 1 + l % 3 elements with ids 600+10l+j (ListElems in spec/Expr.tla); elements are
+# interned in a namespace of their own (an element "1" is not the operand "1"); functions 5 and 6 take lists 4 / 5
+LISTS = {1: ["a", "b c"], 2: ["1", "2", "3"], 3: ["007"], 4: ["01", "02"], 5: ["1.50", "2.0", "x"], 6: ["1e3"],
+         7: ['"a"', "'b'"], 8: ["-2", "5", "+4"], 9: ["motorway"], 10: ["2_Klass", "Rte2etr"]}
+LIST_ELEMS = {600 + 10 * l + j + 1: t for l, ts in LISTS.items() for j, t in enumerate(ts)}
+assert all(len(ts) == 1 + l % 3 for l, ts in LISTS.items())
 
 CMP_WORDS = {"IN", "EQ", "NE", "LT", "LE", "GT", "GE", "LIKE"}
 SYMBOLS = ["&&", "||", "!=", "==", "=*", "<=", ">=", "~*", "=", "<", ">", "~", "%", "!", "+", "-", "*", "/", "^"]
 BINARY = {"OR", "AND", "CMP", "ADD", "SUB", "MUL", "DIV", "POW"}
 OPERAND_AFTER = BINARY | {"LP", "COMMA", "NOT", "NEG", "POS"}
+ELEM0 = 2000           # unknown list elements are interned from here
 
 
 class Interner:
@@ -43,6 +56,8 @@ class Interner:
         assert len(self.atom) == len(ATOMS) + len(FUNC_ARGS)
         self.func = {v: k for k, v in FUNCS.items()}
         self.cmp = {v: k for k, v in CMP_OPS.items()}
+        self.elem = {v: k for k, v in LIST_ELEMS.items()}
+        assert len(self.elem) == len(LIST_ELEMS)
         self.text = {}
         self.next = 1000
 
@@ -62,6 +77,9 @@ class Interner:
     def cmp_id(self, text):
         return self._get(self.cmp, "cmp", text)
 
+    def elem_id(self, text):
+        return self._get(self.elem, "elem", text)
+
 
 def atom_text(i):
     return ATOMS.get(i) or FUNC_ARGS[i]
@@ -73,7 +91,9 @@ def render(tokens, rng):
     n = len(tokens)
     for j, (c, i) in enumerate(tokens):
         nxt = tokens[j + 1][0] if j + 1 < n else None
-        if c == "LP":
+        if c == "COMMA" and inlist(tokens, j):
+            out.append(",")                    # (no free spacing inside a list: elements may contain spaces)
+        elif c == "LP":
             out.append("( " if rng.random() < 0.25 else "(")
         elif c == "RP":
             out.append(" )" if rng.random() < 0.25 else ")")
@@ -81,6 +101,12 @@ def render(tokens, rng):
             out.append(", " if rng.random() < 0.3 else ",")
         elif c == "ATOM":
             out.append(atom_text(i))
+        elif c == "LB":
+            out.append("{")
+        elif c == "RB":
+            out.append("}")
+        elif c == "ELEM":
+            out.append(LIST_ELEMS[i])
         elif c == "FUNC":
             out.append(FUNCS[i])
         elif c in ("OR", "AND"):
@@ -106,10 +132,33 @@ def render(tokens, rng):
     return "".join(out)
 
 
-def _norm_list(text):
-    # {a, b c} : elements verbatim, spacing next to the punctuation is free
-    inner = text[1:-1]
-    return "{" + ",".join(p.strip() for p in inner.split(",")) + "}"
+def inlist(tokens, j):
+    for k in range(j, -1, -1):
+        if tokens[k][0] == "LB":
+            return True
+        if tokens[k][0] in ("RB", "LP", "RP"):
+            return False
+    return False
+
+
+def _split_list(inner):
+    """elements of a list body, split at the commas outside quotes; spacing next to the punctuation is free"""
+    parts, cur, q = [], "", None
+    for ch in inner:
+        if q:
+            cur += ch
+            if ch == q:
+                q = None
+        elif ch in "'\"`":
+            q = ch
+            cur += ch
+        elif ch == ",":
+            parts.append(cur)
+            cur = ""
+        else:
+            cur += ch
+    parts.append(cur)
+    return [p.strip() for p in parts]
 
 
 def tokenize(s, it):
@@ -148,8 +197,15 @@ def tokenize(s, it):
             i = j + 1
         elif ch == "{":
             j = s.find("}", i)
-            j = n - 1 if j < 0 else j
-            toks.append(["ATOM", it.atom_id(_norm_list(s[i:j + 1]))])
+            if j < 0:
+                toks.append(["BAD", it.atom_id(s[i:])])
+                break
+            toks.append(["LB", 0])
+            for k, el in enumerate(_split_list(s[i + 1:j])):
+                if k:
+                    toks.append(["COMMA", 0])
+                toks.append(["ELEM", it.elem_id(el)])
+            toks.append(["RB", 0])
             i = j + 1
         elif ch == "/" and operand_pos():
             j = s.find("/", i + 1)
